@@ -154,7 +154,7 @@ def signature(case, ck, log, fault):
 
 
 def plan(tier, seed):
-    return F.std_plan(tier, seed, 1600, 50000)
+    return F.std_plan(tier, seed, 6400, 60000)
 
 
 def run_shard(desc):
